@@ -18,7 +18,8 @@ import (
 
 func init() {
 	register(&Check{
-		ID: "C15", Level: "fault_enumeration", Configs: []string{"loss-only"},
+		ID:      "C15",
+		Tenants: func(c *core.Ctx, i int) tenant { return tenantDepack(c, []int{kH264, kAV1Dep}[c.T.Intn(2)]) }, Level: "fault_enumeration", Configs: []string{"loss-only"},
 		Run:         runC15,
 		QuickRuns:   40_000,
 		ThoroughSec: 600,
